@@ -100,6 +100,7 @@ pub fn record(w: &mut dyn std::io::Write, seed: u64, n_events: usize) {
     let mut rng = StdRng::seed_from_u64(seed ^ 0xC09);
     let eps_list: [(i64, i64); 9] = [(0, 1), (-1, 2), (1, 4), (1, 2), (1, 1), (3, 2), (5, 2), (7, 1), (100, 1)];
     for k in 0..n_events {
+        crate::ctx::beat(&format!("{{\"record\": \"c09\", \"seed\": {seed}, \"event\": {k}}}"));
         let nv = match k % 5 { 0 => rng.gen_range(7..12), 1 => rng.gen_range(12..30), 2 => rng.gen_range(30..80), 3 => rng.gen_range(0..4), _ => rng.gen_range(7..20) };
         let style = k % 4;
         let mut cs: Vec<Coord<f64>> = vec![];
@@ -151,6 +152,7 @@ pub fn record_steps(w: &mut dyn std::io::Write, seed: u64, n_events: usize) {
     let mut rng = StdRng::seed_from_u64(seed ^ 0x510);
     let eps_list: [(i64, i64); 8] = [(1, 4), (1, 2), (1, 1), (3, 2), (5, 2), (7, 1), (20, 1), (100, 1)];
     for k in 0..n_events {
+        crate::ctx::beat(&format!("{{\"record\": \"c09\", \"seed\": {seed}, \"event\": {k}}}"));
         let nv = match k % 5 { 0 => rng.gen_range(3..8), 1 => rng.gen_range(8..20), 2 => rng.gen_range(20..40), 3 => rng.gen_range(0..4), _ => rng.gen_range(5..14) };
         let style = k % 4;
         let span = if k % 7 == 0 { 3 } else { 20 };
